@@ -432,6 +432,25 @@ func NewUniverse(r *rand.Rand, p Profile) *Universe {
 			}
 		}
 	}
+	if p.Uploads {
+		add(&TypeDef{Name: "FileIn", Kind: KInput, Fields: []*Field{
+			{Name: "f", Type: "Upload", Owner: -1}, {Name: "fs", Type: "[Upload]", Owner: -1}, {Name: "note", Type: "String", Owner: -1},
+			{Name: "inner", Type: "FileIn2", Owner: -1},
+		}})
+		add(&TypeDef{Name: "FileIn2", Kind: KInput, Fields: []*Field{{Name: "g", Type: "Upload", Owner: -1}, {Name: "gs", Type: "[Upload!]", Owner: -1}}})
+		ent := "String"
+		if len(ents) > 0 {
+			ent = pick(r, ents)
+		}
+		u.Mutation = append(u.Mutation,
+			&Field{Name: "upOne", Type: "String", Args: []Arg{{Name: "file", Type: "Upload"}}, Owner: r.Intn(u.K)},
+			&Field{Name: "upMany", Type: "[String!]", Args: []Arg{{Name: "files", Type: "[Upload]"}, {Name: "tag", Type: "String"}}, Owner: r.Intn(u.K)},
+			&Field{Name: "upIn", Type: "String", Args: []Arg{{Name: "in", Type: "FileIn"}}, Owner: r.Intn(u.K)},
+			&Field{Name: "upIn2", Type: "String", Args: []Arg{{Name: "in", Type: "FileIn"}, {Name: "ins", Type: "[FileIn]"}}, Owner: r.Intn(u.K)},
+			&Field{Name: "upEnt", Type: ent, Args: []Arg{{Name: "file", Type: "Upload"}, {Name: "other", Type: "Upload"}}, Owner: r.Intn(u.K)},
+			&Field{Name: "upTwo", Type: "String", Args: []Arg{{Name: "a", Type: "Upload"}, {Name: "b", Type: "Upload"}}, Owner: r.Intn(u.K)},
+		)
+	}
 	if p.Subscriptions {
 		sUsed := map[string]bool{}
 		u.Subs = mkRoots(1+r.Intn(2), []string{"onEvent", "watch", "feed", "ticks"}, sUsed)
